@@ -673,6 +673,16 @@ def shard_fn(shard, nshards, tier, seed):
                 acc.count(f'targets[{t["kind"]}]')
             acc.add('kind_sequences', ''.join(t['kind'] for t in spec))
             acc.count(f'hidden[{nhidden}]')
+        if i % 10 == 0 and nhidden:
+            # non-vacuity only (never part of the verdict): does the compiler really carry invisible targets here?
+            try:
+                q = conn.compile(bq_parser.parse(text))
+                inv = sum(1 for t in q.c_targets if t.name is None)
+                acc.count('sampled_statements_with_hidden_clauses')
+                acc.count('sampled_statements_where_compiler_has_invisible_targets', 1 if inv else 0)
+                acc.count('sampled_invisible_targets', inv)
+            except Exception:      # noqa: BLE001 -- internals may change; this is only a counter
+                acc.count('sampled_compile_introspection_failed')
         for fp, msg in check_statement(conn, u, acc):
             acc.violation(fp, f'{text!r}: {msg}', {'group': group, 'label': repr(label), 'text': text, 'spec': jsonable_targets(spec), 'nhidden': nhidden})
         if i % 499 == 0:
@@ -720,6 +730,8 @@ def run(ctx):
         'rows_checked': n['rows_checked'],
         'statements_with_rows': n['statements_with_rows'],
         'statements_without_rows': n['statements_without_rows'],
+        'non_vacuity_sample_of_compiled_queries': {k: n[k] for k in ('sampled_statements_with_hidden_clauses', 'sampled_statements_where_compiler_has_invisible_targets',
+                                                                      'sampled_invisible_targets', 'sampled_compile_introspection_failed')},
         'tables': {name: list(t.wildcard_columns) for name, t in conn.tables.items()},
         'violating_cases': n['violating_cases'],
         'samples': total.samples[:8],
